@@ -44,9 +44,10 @@ class Path:
 
 
 class Explorer:
-    def __init__(self, solver_timeout_ms=60000, max_paths=200000, deadline=None):
+    def __init__(self, solver_timeout_ms=10000, max_paths=200000, deadline=None):
         self.solver = z3.Solver()
         self.solver.set("timeout", solver_timeout_ms)
+        self.timeout_ms = solver_timeout_ms
         self.nqueries = 0
         self.nsat = self.nunsat = self.nunknown = 0
         self.tsolve = 0.0
@@ -70,20 +71,31 @@ class Explorer:
         self.nqueries += 1
         t = time.time()
         r = self.solver.check(*extra)
+        if r == z3.unknown and self.nunknown < 6:
+            # one retry with a long time limit before the answer is recorded as unknown
+            self.solver.set("timeout", self.timeout_ms * 9)
+            try:
+                r = self.solver.check(*extra)
+            finally:
+                self.solver.set("timeout", self.timeout_ms)
         self.tsolve += time.time() - t
         if r == z3.sat:
             self.nsat += 1
         elif r == z3.unsat:
             self.nunsat += 1
         else:
+            # `unknown` is never taken for an answer: a branch side is then explored as *possibly* feasible (sound for
+            # finding violations, which are replayed concretely anyway) and the work item cannot end as `holds`
             self.nunknown += 1
-            raise Inconclusive("z3 returned unknown: %s" % self.solver.reason_unknown())
+            if self.nunknown > 50:
+                raise Inconclusive("z3 returned unknown too often: %s" % self.solver.reason_unknown())
         if self.deadline is not None and time.time() > self.deadline:
             raise Inconclusive("work item exceeded its time budget")
         return r
 
     def is_sat(self, *extra):
-        return self.check(*[self.subst_known(e) for e in extra]) == z3.sat
+        """conservative: `unknown` counts as possibly satisfiable"""
+        return self.check(*[self.subst_known(e) for e in extra]) != z3.unsat
 
     def model(self, *extra):
         if self.check(*[self.subst_known(e) for e in extra]) != z3.sat:
@@ -156,8 +168,8 @@ class Explorer:
             return False
         d = self._next_decision()
         if d is None:
-            can_t = self.check(cond) == z3.sat
-            can_f = self.check(z3.Not(cond)) == z3.sat
+            can_t = self.check(cond) != z3.unsat
+            can_f = self.check(z3.Not(cond)) != z3.unsat
             if can_t and can_f:
                 self.pending.append(self.decisions[: self.pos] + [0])
                 self.nnodes += 2
@@ -253,7 +265,7 @@ class Explorer:
         cands = list(candidates)
         d = self._next_decision()
         if d is None:
-            feas = [i for i, v in enumerate(cands) if self.check(e == v) == z3.sat]
+            feas = [i for i, v in enumerate(cands) if self.check(e == v) != z3.unsat]
             if not feas:
                 raise _Abort()
             for i in reversed(feas[1:]):
